@@ -125,6 +125,10 @@ const dbRule = "session programs: Put/Delete/Get through string and byte flavour
 	"the table reader before Open, the model receives the same content through its own steps; the legacy keys are read after every step like all others; " +
 	"a session that fails is run again through the byte flavour only (flavour differential: passes there = the flavours disagree, C17); " +
 	"the sessions run in a guarded child process: a process killed by a panic of a background goroutine is a violation with the session as failing input; " +
+	"after the n regular sessions 2 + n/60 (at most 60) MANY-TABLES sessions: one database with a backlog of 70..150 tiny tables (1..2 puts / deletes each, forced rotation per table), " +
+	"values in the oldest tables, tombstones of those keys in the newest, other keys in between, then compaction cycles under every kind of selection (size limit huge / tiny / between the table sizes, " +
+	"ratio only, thresholds below / above the number of tables) with the flushed memstore readable / after an empty rotation / after a restart, every key read after each cycle, after an empty rotation " +
+	"and after a restart, more tables and further cycles; " +
 	"non-trivial = at least one flush and one accepted write; distinct = distinct step strings"
 
 // runDb runs the sessions in a guarded child process (same executable, mode `dbguard`): the library's flusher and
@@ -133,14 +137,20 @@ const dbRule = "session programs: Put/Delete/Get through string and byte flavour
 func runDb(res *Result, drv *Driver, seed uint64, n int, tier string, only int) error {
 	res.Rule = dbRule
 	if os.Getenv("VERIF_DB_INPROC") != "" {
-		return dbLoop(res, drv, seed, 0, n, tier, only, "", false)
+		return dbLoop(res, drv, seed, 0, -1, n, tier, only, "", false)
 	}
 	return dbGuardParent(res, drv, seed, n, tier, only)
 }
 
-// dbLoop: the cases [from, n) in this process; with a state directory the result so far is saved after every case
-func dbLoop(res *Result, drv *Driver, seed uint64, from, n int, tier string, only int, stateDir string, bytesOnly bool) error {
-	for idx := from; idx < n; idx++ {
+// dbLoop: the cases [from, upto) in this process (upto < 0: all of them); with a state directory the result so far
+// is saved after every case.  The cases [0, n) are the regular sessions, the cases [n, n+dbManyExtra(n)) are the
+// many-tables sessions (dbManySession).
+func dbLoop(res *Result, drv *Driver, seed uint64, from, upto, n int, tier string, only int, stateDir string, bytesOnly bool) error {
+	dbBaseN = n
+	if upto < 0 {
+		upto = n + dbManyExtra(n)
+	}
+	for idx := from; idx < upto; idx++ {
 		if only >= 0 && idx != only {
 			continue
 		}
@@ -148,7 +158,7 @@ func dbLoop(res *Result, drv *Driver, seed uint64, from, n int, tier string, onl
 		dbJournal(nil)
 		var err error
 		if bytesOnly {
-			err = dbSession(res, drv, NewRng(seed, uint64(idx)), idx, tier, true)
+			err = dbSessionFor(idx)(res, drv, NewRng(seed, uint64(idx)), idx, tier, true)
 		} else {
 			err = dbOne(res, drv, seed, idx, tier)
 		}
@@ -194,6 +204,7 @@ func dbGuardChildMain(args []string) int {
 	seed := fs.Uint64("seed", 1, "")
 	n := fs.Int("n", 0, "")
 	from := fs.Int("from", 0, "")
+	upto := fs.Int("upto", -1, "")
 	only := fs.Int("only", -1, "")
 	tier := fs.String("tier", "quick", "")
 	drvPath := fs.String("drv", "", "")
@@ -208,7 +219,7 @@ func dbGuardChildMain(args []string) int {
 	defer drv.Close()
 	dbJournalPath = filepath.Join(*state, "cur.txt")
 	res := NewResult("db", *seed, *tier)
-	if err := dbLoop(res, drv, *seed, *from, *n, *tier, *only, *state, *bytesOnly); err != nil {
+	if err := dbLoop(res, drv, *seed, *from, *upto, *n, *tier, *only, *state, *bytesOnly); err != nil {
 		fmt.Fprintln(os.Stderr, "harness error:", err)
 		return 3
 	}
@@ -257,9 +268,9 @@ func dbMerge(dst, src *Result) {
 	}
 }
 
-// one guarded child over the cases [from, n): result of the completed cases, whether the process died, and if so
-// in which case (index, trace so far, end of its stderr)
-func dbGuardRun(seed uint64, from, n int, tier string, only int, bytesOnly bool) (part *Result, lines int, died bool, idx int, trace, stderr string, err error) {
+// one guarded child over the cases [from, upto) of a run with n regular sessions (upto < 0: all cases): result of the
+// completed cases, whether the process died, and if so in which case (index, trace so far, end of its stderr)
+func dbGuardRun(seed uint64, from, upto, n int, tier string, only int, bytesOnly bool) (part *Result, lines int, died bool, idx int, trace, stderr string, err error) {
 	state, err := os.MkdirTemp("", "verif-dbguard-")
 	if err != nil {
 		return nil, 0, false, 0, "", "", err
@@ -269,7 +280,7 @@ func dbGuardRun(seed uint64, from, n int, tier string, only int, bytesOnly bool)
 	if e != nil {
 		exe = os.Args[0]
 	}
-	args := []string{"dbguard", "--seed", strconv.FormatUint(seed, 10), "--n", strconv.Itoa(n), "--from", strconv.Itoa(from), "--only", strconv.Itoa(only),
+	args := []string{"dbguard", "--seed", strconv.FormatUint(seed, 10), "--n", strconv.Itoa(n), "--from", strconv.Itoa(from), "--upto", strconv.Itoa(upto), "--only", strconv.Itoa(only),
 		"--tier", tier, "--drv", dbArgValue("drv"), "--state", state}
 	if bytesOnly {
 		args = append(args, "--bytes-only")
@@ -342,8 +353,9 @@ func dbPanicHead(stderr string) (where, head string) {
 
 func dbGuardParent(res *Result, drv *Driver, seed uint64, n int, tier string, only int) error {
 	from, deaths := 0, 0
-	for from < n {
-		part, lines, died, idx, trace, stderr, err := dbGuardRun(seed, from, n, tier, only, false)
+	total := n + dbManyExtra(n)
+	for from < total {
+		part, lines, died, idx, trace, stderr, err := dbGuardRun(seed, from, -1, n, tier, only, false)
 		if part != nil {
 			dbMerge(res, part)
 			drv.lines += lines
@@ -362,7 +374,7 @@ func dbGuardParent(res *Result, drv *Driver, seed uint64, n int, tier string, on
 		res.Stat("guard:process-died")
 		res.Violate(idx, "C01", "process-killed-by-panic:"+where, head, trace)
 		// flavour differential: the same session through the byte flavour only
-		bpart, _, bdied, _, _, _, berr := dbGuardRun(seed, idx, idx+1, tier, idx, true)
+		bpart, _, bdied, _, _, _, berr := dbGuardRun(seed, idx, idx+1, n, tier, idx, true)
 		res.Evaluations++
 		if berr == nil && !bdied && bpart != nil && len(bpart.Violations) == 0 && len(bpart.Disagreements) == 0 {
 			res.Stat("flavour-differential:bytes-only-session-passes")
@@ -407,7 +419,8 @@ func dbOne(res *Result, drv *Driver, seed uint64, idx int, tier string) error {
 		}
 	}
 	nv := len(res.Violations)
-	if err := dbSession(res, drv, NewRng(seed, uint64(idx)), idx, tier, false); err != nil {
+	session := dbSessionFor(idx)
+	if err := session(res, drv, NewRng(seed, uint64(idx)), idx, tier, false); err != nil {
 		return err
 	}
 	trace := dbLastTrace
@@ -431,7 +444,7 @@ func dbOne(res *Result, drv *Driver, seed uint64, idx int, tier string) error {
 		return nil
 	}
 	scratch := NewResult("db", seed, tier)
-	if err := dbSession(scratch, drv, NewRng(seed, uint64(idx)), idx, tier, true); err != nil {
+	if err := session(scratch, drv, NewRng(seed, uint64(idx)), idx, tier, true); err != nil {
 		return err
 	}
 	res.Evaluations++
@@ -1617,6 +1630,471 @@ func dbSession(res *Result, drv *Driver, r *Rng, idx int, tier string, bytesOnly
 	if modelOff {
 		return nil
 	}
+	m, err := drv.Ask("db.run steps=" + cs)
+	if err != nil {
+		return err
+	}
+	res.Cmp(idx, "db.run", m, strings.Join(impl, " "), strings.Join(trace, " "))
+	return nil
+}
+
+// ---------------------------------------------------------------------------------------------
+// many-tables sessions (C06, C01): the cases n, n+1, ... of a run.  One database collects a backlog of 70..150 tiny
+// tables (compactions run only where the session places them), the oldest tables hold the values of the "old" keys,
+// the newest tables their tombstones, the tables in between other keys.  Then compaction cycles run under every kind
+// of selection.  The regular sessions never have more than a dozen tables.
+
+// number of regular sessions of the run that is being executed (set by dbLoop)
+var dbBaseN int
+
+// dbManyExtra: number of many-tables sessions that follow the n regular ones
+func dbManyExtra(n int) int {
+	if n <= 0 {
+		return 0
+	}
+	k := 2 + n/60
+	if k > 60 {
+		k = 60
+	}
+	return k
+}
+
+func dbSessionFor(idx int) func(res *Result, drv *Driver, r *Rng, idx int, tier string, bytesOnly bool) error {
+	if idx >= dbBaseN {
+		return dbManySession
+	}
+	return dbSession
+}
+
+func dbManySession(res *Result, drv *Driver, r *Rng, idx int, tier string, bytesOnly bool) error {
+	dir, err := os.MkdirTemp("", "verif-db-")
+	if err != nil {
+		return err
+	}
+	defer os.RemoveAll(dir)
+	res.Cases++
+	res.Stat("case:many-tables")
+
+	var steps, impl, trace []string
+	defer func() { dbLastTrace = strings.Join(trace, " ") }()
+	emit := func(step, result string) {
+		steps = append(steps, step)
+		impl = append(impl, result)
+	}
+	ref := map[string][]byte{}
+	var db *simpledb.DB
+	opened, dead := false, false
+	writes, flushes := 0, 0
+
+	// key universe: old keys (valued in the oldest tables, deleted in the newest), other keys (the tables in between)
+	mkKey := func(i int) []byte {
+		switch r.Intn(6) {
+		case 0:
+			return []byte{0xff, 0xfe, byte(i)}
+		case 1:
+			return append([]byte("long-key-"), bytesRepeat(byte('a'+i), 40+r.Intn(100))...)
+		case 2:
+			return []byte{0x91, 0x8d, 0x4c, byte(i)}
+		}
+		return []byte{byte('a' + i)}
+	}
+	nOld, nOther := 2+r.Intn(4), 2+r.Intn(3)
+	var keys, oldKeys, otherKeys [][]byte
+	for i := 0; i < nOld+nOther; i++ {
+		k := mkKey(i)
+		keys = append(keys, k)
+		if i < nOld {
+			oldKeys = append(oldKeys, k)
+		} else {
+			otherKeys = append(otherKeys, k)
+		}
+	}
+	genVal := func() []byte {
+		if r.Chance(6) {
+			return r.Bytes(300 + r.Intn(600)) // incompressible: a table that a size limit between the table sizes excludes
+		}
+		return r.Bytes(1 + r.Intn(20))
+	}
+
+	// selection kinds
+	opts := dbOpts{memstore: 1 << 40, rbuf: 4096, wbuf: 4096}
+	ratios := [][2]int{{0, 1}, {1, 4}, {1, 2}, {1, 1}, {1, 5}}
+	pickOpts := func(kind int, sizes []uint64, nTables int) string {
+		bufs := []int{64, 4096, 1 << 20}
+		opts.rbuf, opts.wbuf = uint64(bufs[r.Intn(len(bufs))]), uint64(bufs[r.Intn(len(bufs))])
+		rat := ratios[r.Intn(len(ratios))]
+		opts.ratioNum, opts.ratioDen = rat[0], rat[1]
+		opts.threshold = []int{-1, 0, 1, 3, 10, 64}[r.Intn(6)]
+		name := ""
+		switch kind {
+		case 0: // every table is smaller than the limit
+			opts.maxSize = 1 << 30
+			name = "size-limit-huge"
+		case 1: // no table is smaller than the limit: the tombstone ratio alone decides
+			opts.maxSize = uint64(r.Intn(2))
+			if r.Chance(70) {
+				rat = ratios[1+r.Intn(len(ratios)-1)]
+				opts.ratioNum, opts.ratioDen = rat[0], rat[1]
+			}
+			name = fmt.Sprintf("size-limit-tiny:ratio=%d/%d", opts.ratioNum, opts.ratioDen)
+		case 2: // a limit between the table sizes (and at one of them: `<` is strict)
+			opts.maxSize = 200
+			if len(sizes) > 0 {
+				opts.maxSize = sizes[r.Intn(len(sizes))] + uint64(r.Intn(2))
+			}
+			opts.ratioNum, opts.ratioDen = 1, 1
+			if r.Chance(40) {
+				opts.ratioNum, opts.ratioDen = 1, 2
+			}
+			name = "size-limit-between-table-sizes"
+		default: // the threshold relates to the number of tables: one below, equal, above
+			opts.maxSize = 1 << 30
+			opts.threshold = nTables - 1 + r.Intn(3)
+			name = "threshold-around-number-of-tables"
+		}
+		return name
+	}
+	openDb := func() {
+		d, err := simpledb.NewSimpleDB(dir, opts.extra()...)
+		if err == nil {
+			err = d.Open()
+		}
+		if err != nil {
+			res.Violate(idx, "C01", "open-failed", err.Error(), strings.Join(trace, " "))
+			opened = false
+			return
+		}
+		db, opened = d, true
+		emit(opts.modelTok(), "-")
+		trace = append(trace, fmt.Sprintf("open(thr=%d,max=%d,ratio=%d/%d)", opts.threshold, opts.maxSize, opts.ratioNum, opts.ratioDen))
+	}
+	readKey := func(k []byte, useStr bool, ctx string) {
+		var got []byte
+		var err error
+		if useStr {
+			var s string
+			s, err = db.Get(string(k))
+			got = []byte(s)
+		} else {
+			got, err = db.GetBytes(k)
+		}
+		out := dbRes(err)
+		if err == nil {
+			out = "val:" + gb(nonNil(got))
+		}
+		want := "notfound"
+		if v, ok := ref[string(k)]; ok {
+			want = "val:" + gb(v)
+		}
+		res.Evaluations++
+		if out != want {
+			prop := "C01"
+			if strings.HasPrefix(ctx, "compact") {
+				prop = "C06"
+			}
+			res.Violate(idx, prop, "get-mismatch:many-tables:after-"+ctx,
+				fmt.Sprintf("Get%s(%x): want %s got %s", map[bool]string{true: "(string)", false: "Bytes"}[useStr], k, want, out), strings.Join(trace, " "))
+			dead = true
+		}
+		emit("g:"+gb(k), out)
+	}
+	readAll := func(ctx string) {
+		for i, k := range keys {
+			if dead || !opened {
+				return
+			}
+			readKey(k, (i+len(steps))%2 == 0 && !bytesOnly, ctx)
+		}
+	}
+	doPut := func(k []byte) string {
+		v := genVal()
+		useStr := r.Chance(30) && !bytesOnly
+		var err error
+		if useStr {
+			err = db.Put(string(k), string(v))
+		} else {
+			err = db.PutBytes(k, v)
+		}
+		res.Stat("op:put")
+		res.Evaluations++
+		emit(map[bool]string{true: "ps:", false: "pb:"}[useStr]+gb(k)+":"+gb(v)+":0", dbRes(err))
+		if err != nil {
+			res.Violate(idx, "C01", "valid-put-failed", dbRes(err), strings.Join(trace, " "))
+			dead = true
+		} else {
+			ref[string(k)] = v
+			writes++
+		}
+		return fmt.Sprintf("+%x:%dB", k[len(k)-1:], len(v))
+	}
+	doDel := func(k []byte) string {
+		useStr := r.Chance(30) && !bytesOnly
+		var err error
+		if useStr {
+			err = db.Delete(string(k))
+		} else {
+			err = db.DeleteBytes(k)
+		}
+		res.Stat("op:delete")
+		res.Evaluations++
+		emit(map[bool]string{true: "ds:", false: "db:"}[useStr]+gb(k), dbRes(err))
+		if err != nil {
+			res.Violate(idx, "C01", "delete-failed", dbRes(err), strings.Join(trace, " "))
+			dead = true
+		} else {
+			delete(ref, string(k))
+			writes++
+		}
+		return fmt.Sprintf("-%x", k[len(k)-1:])
+	}
+	rotate := func() {
+		dbJournal(trace)
+		if err := db.VerifRotate(); err != nil {
+			res.Violate(idx, "C01", "rotate-failed", err.Error(), strings.Join(trace, " "))
+			dead = true
+		}
+		emit("rot", "-")
+		flushes++
+	}
+	waitFlush := func() {
+		db.VerifWaitFlushIdle()
+		emit("flush", "-")
+	}
+	tablesTok := func() (string, []uint64, int, error) {
+		names, sizes, _, _ := db.VerifTables()
+		g, err := gensOf(names)
+		return "t:" + g, sizes, len(names), err
+	}
+	// nt tables, one forced rotation each; phase 0: values of the old keys, 1: other keys, 2: tombstones of the old keys
+	tableNo := 0
+	build := func(nt, phase int) {
+		for t := 0; t < nt && !dead; t++ {
+			tableNo++
+			var ops []string
+			for o, no := 0, 1+r.Intn(2); o < no && !dead; o++ {
+				var k []byte
+				del := false
+				switch phase {
+				case 0:
+					k = oldKeys[(t*2+o)%len(oldKeys)]
+					if t*2+o >= len(oldKeys) {
+						k = oldKeys[r.Intn(len(oldKeys))]
+					}
+				case 1:
+					k, del = otherKeys[r.Intn(len(otherKeys))], r.Chance(40)
+					if r.Chance(3) {
+						k, del = oldKeys[r.Intn(len(oldKeys))], r.Chance(50)
+					}
+				default:
+					k, del = oldKeys[r.Intn(len(oldKeys))], true
+					if r.Chance(20) {
+						k, del = keys[r.Intn(len(keys))], r.Chance(50)
+					}
+				}
+				if del {
+					ops = append(ops, doDel(k))
+				} else {
+					ops = append(ops, doPut(k))
+				}
+				if !dead {
+					readKey(k, r.Chance(30) && !bytesOnly, "write")
+				}
+			}
+			trace = append(trace, fmt.Sprintf("t%d[%s]", tableNo, strings.Join(ops, " ")))
+			if dead {
+				return
+			}
+			rotate()
+			if r.Chance(10) {
+				waitFlush()
+			}
+			if r.Chance(6) {
+				readAll("flush")
+			}
+		}
+	}
+	compactCycle := func() error {
+		waitFlush()
+		before, sizes, _, err := tablesTok()
+		if err != nil {
+			return err
+		}
+		emit("tables", before)
+		var szs []string
+		for _, s := range sizes {
+			szs = append(szs, strconv.FormatUint(s, 10))
+		}
+		dbJournal(append(trace, "compact["+before+"]"))
+		var sel []string
+		err = safely(func() error {
+			var e error
+			sel, _, e = db.VerifCompactOnce()
+			return e
+		})
+		res.Evaluations++
+		if err != nil {
+			res.Violate(idx, "C01", "compaction-failed", err.Error(), strings.Join(trace, " "))
+			dead = true
+			return nil
+		}
+		g, err := gensOf(sel)
+		if err != nil {
+			return err
+		}
+		emit("compact:"+strings.Join(szs, ";"), "sel:"+g)
+		after, _, _, err := tablesTok()
+		if err != nil {
+			return err
+		}
+		emit("tables", after)
+		short := func(s string) string {
+			p := strings.Split(s, ";")
+			if len(p) > 6 {
+				return fmt.Sprintf("%s;%s;…(%d tables)…;%s", p[0], p[1], len(p), p[len(p)-1])
+			}
+			return s
+		}
+		trace = append(trace, fmt.Sprintf("compact[%s→sel %s→%s]", short(before), short(g), short(after)))
+		switch {
+		case len(sel) == 0:
+			res.Stat("many:cycle:nothing-selected")
+		default:
+			res.Stat("op:compact:merged")
+			oldest := strings.HasPrefix(before[2:]+";", g+";")
+			res.Stat(fmt.Sprintf("many:cycle:merged:%s:starts-at-oldest=%v", map[bool]string{true: "more-than-64-tables", false: "at-most-64-tables"}[len(sel) > 64], oldest))
+			if len(sel) == len(sizes) {
+				res.Stat("many:cycle:merged-all-tables")
+			}
+		}
+		if len(sel) > 0 && !strings.Contains(";"+before[2:]+";", ";"+g+";") {
+			res.Violate(idx, "C06", "selection-not-contiguous", "tables "+before+" selected "+g, strings.Join(trace, " "))
+		}
+		return nil
+	}
+	closeDb := func() {
+		dbJournal(append(trace, "close"))
+		err := safely(db.Close)
+		emit("close", dbRes(err))
+		res.Evaluations++
+		opened = false
+		flushes++
+		if err != nil {
+			res.Violate(idx, "C01", "close-failed", err.Error(), strings.Join(trace, " "))
+			dead = true
+			return
+		}
+		trace = append(trace, "close")
+	}
+
+	// the backlog
+	total := 70 + r.Intn(81)
+	if tier == "thorough" && r.Chance(15) {
+		total = 150 + r.Intn(150)
+	}
+	nValues, nTombs := 1+r.Intn(5), 1+r.Intn(6)
+	res.Stat(fmt.Sprintf("many:tables=%d..%d", total/20*20, total/20*20+19))
+	firstKind := (idx - dbBaseN) % 4
+	if firstKind == 3 {
+		firstKind = r.Intn(4)
+	}
+	kindName := pickOpts(firstKind, nil, total)
+	openDb()
+	if !opened {
+		return nil
+	}
+	build(nValues, 0)
+	build(total-nValues-nTombs, 1)
+	build(nTombs, 2)
+	for _, k := range oldKeys {
+		if _, live := ref[string(k)]; !live {
+			res.Stat("many:old-key-deleted-in-newest-tables")
+		}
+	}
+	for round := 0; round < 3 && opened && !dead; round++ {
+		if round > 0 {
+			// more tables on top of what the last cycle left, then another kind of selection
+			build(2+r.Intn(8), 1+r.Intn(2))
+			firstKind = r.Intn(4)
+		}
+		if dead {
+			break
+		}
+		waitFlush()
+		readAll("flush")
+		// the memstore flushed last stays readable (and shadows the tables) until the next rotation or restart:
+		// the cycle runs with it, after a rotation of the empty memstore, or after a restart (with the cycle's options)
+		unmask := r.Intn(3)
+		if round > 0 || firstKind == 2 {
+			unmask = 2
+		}
+		switch unmask {
+		case 1:
+			res.Stat("many:cycle-after-empty-rotation")
+			trace = append(trace, "rotate-empty")
+			rotate()
+			waitFlush()
+			readAll("flush+rotation")
+		case 2:
+			res.Stat("many:cycle-after-restart")
+			_, sizes, nTables, err := tablesTok()
+			if err != nil {
+				return err
+			}
+			closeDb()
+			if dead {
+				break
+			}
+			if round > 0 || firstKind == 2 {
+				kindName = pickOpts(firstKind, sizes, nTables)
+			}
+			openDb()
+			readAll("reopen")
+		default:
+			res.Stat("many:cycle-with-flushed-memstore-readable")
+		}
+		if !opened || dead {
+			break
+		}
+		res.Stat("many:selection:" + strings.SplitN(kindName, ":", 2)[0])
+		trace = append(trace, "/*"+kindName+"*/")
+		if err := compactCycle(); err != nil {
+			return err
+		}
+		readAll("compact")
+		if opened && !dead {
+			trace = append(trace, "rotate-empty")
+			rotate()
+			waitFlush()
+			readAll("compact+rotation")
+		}
+		if opened && !dead && r.Chance(50) {
+			// a second cycle under the same options picks up what the first one left
+			if err := compactCycle(); err != nil {
+				return err
+			}
+			readAll("compact")
+		}
+		if opened && !dead && round == 2 {
+			closeDb()
+			if !dead {
+				openDb()
+				readAll("compact+reopen")
+			}
+		}
+	}
+	if opened && db != nil {
+		if dead {
+			dbJournal(append(trace, "abandon-handle"))
+			_ = safely(func() error { db.VerifWaitFlushIdle(); return nil })
+		} else if err := safely(db.Close); err != nil {
+			res.Violate(idx, "C01", "close-failed", err.Error(), strings.Join(trace, " "))
+		}
+	}
+	cs := strings.Join(steps, ",")
+	if flushes > 0 && writes > 0 {
+		res.NoteNontrivial(cs)
+	}
+	res.Sample(strings.Join(trace, " "))
 	m, err := drv.Ask("db.run steps=" + cs)
 	if err != nil {
 		return err
